@@ -460,6 +460,19 @@ inductive VRes where
   | fault (k : Fault)
   deriving Repr, Inhabited
 
+/-- `append(descriptions, more...)` where either side may have faulted (the left one first) -/
+def Res.append : Res → Res → Res
+  | .fault k, _ => .fault k
+  | .ok _, .fault k => .fault k
+  | .ok a, .ok b => .ok (a ++ b)
+
+/-- one turn of the member loop: the description of this member, then the rest of the loop -/
+def VRes.cons : Res → VRes → VRes
+  | .fault k, _ => .fault k
+  | .ok _, .fault k => .fault k
+  | .ok _, .hit => .hit
+  | .ok d, .acc ds => .acc (d ++ ds)
+
 section
 variable (cfg : Cfg) (sfh : Bool)
 
@@ -551,17 +564,11 @@ decreasing_by
 def descAll (items : List Item) (p : Path) : Res :=
   match items with
   | [] => .ok []
-  | .leaf m :: rest =>
-      (match descAll rest p with
-       | .fault k => .fault k
-       | .ok ds => .ok (m :: ds))
-  | .sub e a pe guarded :: rest =>
-      match (if guarded && asg cfg sfh e a then Res.ok [] else internalDescribe e e a (p ++ [pe])) with
-      | .fault k => .fault k
-      | .ok d =>
-        match descAll rest p with
-        | .fault k => .fault k
-        | .ok ds => .ok (d ++ ds)
+  | .leaf m :: rest => Res.append (.ok [m]) (descAll rest p)
+  | .sub e a pe true :: rest =>
+      if asg cfg sfh e a then descAll rest p
+      else Res.append (internalDescribe e e a (p ++ [pe])) (descAll rest p)
+  | .sub e a pe false :: rest => Res.append (internalDescribe e e a (p ++ [pe])) (descAll rest p)
 termination_by (maxAW items, sumEW items)
 decreasing_by
   all_goals simp_wf
@@ -575,17 +582,12 @@ def descVar (xs : List Atom) (addUndef : Bool) (i : Nat) (a : Ty) (p : Path) : V
       if addUndef then
         (if asg cfg sfh .undef a then .hit else .acc [.typeMismatch (p ++ [PE.nat .variant i]) (.ofTy .undef) a])
       else .acc []
+  | .ty t :: xs =>
+      if asg cfg sfh t a then .hit
+      else VRes.cons (internalDescribe t t a (p ++ [PE.nat .variant i])) (descVar xs addUndef (i + 1) a p)
   | x :: xs =>
-      if x.accepts cfg sfh a then .hit else
-      match (match x with
-             | .ty t => internalDescribe t t a (p ++ [PE.nat .variant i])
-             | x => Res.ok [.typeMismatch (p ++ [PE.nat .variant i]) (.atom x) a]) with
-      | .fault k => .fault k
-      | .ok d =>
-        match descVar xs addUndef (i + 1) a p with
-        | .fault k => .fault k
-        | .hit => .hit
-        | .acc ds => .acc (d ++ ds)
+      if asgOpaque cfg sfh a then .hit
+      else VRes.cons (.ok [.typeMismatch (p ++ [PE.nat .variant i]) (.atom x) a]) (descVar xs addUndef (i + 1) a p)
 termination_by (a.w, hwlA xs)
 decreasing_by
   all_goals simp_wf
